@@ -353,10 +353,10 @@ def location_total(run):
                 Source=lambda s, fn, pos: s, extract_scope=lambda s, p: None, get_marked_import=lambda t: None,
                 get_marked_name=lambda t: 'node', get_marked_atribute=lambda t: None, EvalCtx=Ctx, print_dump=lambda t: None))
 
-            class Src(object):
-                tree = None
+            import supp.util as U
+            src = loader.bare_instance(U.Source, tree=None, filename='f.py', source='', orig_source='')
             try:
-                r = f(None, Src(), (1, 1), 'f.py')
+                r = f(None, src, (1, 1), 'f.py')
                 exc = None
             except Exception as e:
                 r, exc = None, e
@@ -381,12 +381,11 @@ def location_total(run):
             stubs = dict(Source=lambda s, fn, pos: s, extract_scope=lambda s, p: None, get_marked_import=lambda t, m=marked: m,
                          print_dump=lambda t: None)
 
-            class Src2(object):
-                tree = None
-                lines = ['import nosuch']
+            import supp.util as U
+            src2 = loader.bare_instance(U.Source, tree=None, lines=['import nosuch'], filename='f.py', source='import nosuch', orig_source='import nosuch')
             f = loader.load('supp.assistant', fname, stubs=stubs)
             try:
-                r = f(Proj(), Src2(), (1, 13), 'f.py')
+                r = f(Proj(), src2, (1, 13), 'f.py')
                 exc = None
             except SyntaxError:
                 exc = None
@@ -397,12 +396,11 @@ def location_total(run):
         # relative import outside any package: list_packages -> norm_package
         run.case = 'assist(from-branch, norm_package fails)'
 
-        class Src3(object):
-            tree = None
-            lines = ['from . import']
+        import supp.util as U
+        src3 = loader.bare_instance(U.Source, tree=None, lines=['from . import'], filename='f.py', source='from . import', orig_source='from . import')
         f = loader.load('supp.assistant', 'assist', stubs=dict(Source=lambda s, fn, pos: s))
         try:
-            f(Proj(), Src3(), (1, 6), 'f.py')
+            f(Proj(), src3, (1, 6), 'f.py')
             exc = None
         except SyntaxError:
             exc = None
